@@ -159,6 +159,11 @@ def level0_case(draw, tier='quick'):
                                                            '0.05']))
         imp = {'n': imps[i]} if imp_mode == 'card' else None
         deck['cells'].append(md.cell(cell_ids[i], matn, rho, expr, imp=imp))
+        extra = draw(gen.ignorable_keywords())
+        if extra:
+            # TMP, VOL, NONU, ...: parameters that do not concern the geometry
+            deck['cells'][-1]['extra_kw'] = extra
+            labels.append('ignorable-cell-keywords')
     for hid_, hexpr in helpers:
         deck['cells'].append(md.cell(hid_, 0, None, hexpr,
                                      imp={'n': 1} if imp_mode == 'card'
